@@ -95,3 +95,17 @@ func init() {
 		variant{Prop: "C07", Name: "feature-numeric-separators-error-inverted", Patch: "benign/C07-r10-1/patch.diff", File: "parser/parser_functions.go", Old: "\t\tok = err == nil\n", New: "\t\tok = err != nil\n", Nth: 1, Rule: "R7.4", Construct: "INT"},
 	)
 }
+
+// anchors are fields by their role: a second field of the same type (a file name next to the input, a list of
+// sources next to the names, a second string list in the lexer) must not lose them
+func init() {
+	lx := "lexer/lexer.go"
+	sm := "sourcemap/sourcemap.go"
+	for _, p := range []string{"C04", "C07", "C08", "C09", "C10", "C12", "C15"} {
+		addVariants(variant{Prop: p, Name: "benign-second-field-of-an-anchor-type-" + p, File: lx,
+			Old:    "\tleadingComments  []string // leading comments before the token\n",
+			New:    "\tleadingComments  []string // leading comments before the token\n\tFileName         string   // name of the source, for messages\n\tNotes            []string // remarks collected by plugins\n",
+			More:   []edit{{File: sm, Old: "\tnames     []string\n", New: "\tnames     []string\n\tsources   []string\n"}},
+			Benign: true})
+	}
+}
